@@ -915,3 +915,33 @@ def path_arguments(p: int, q: int, fn: int) -> bool:
     a = pick(PATHS, p); b = pick(PATHS, q)
     expr = pick(["States.Array(" + a + ", " + b + ")", "States.MathAdd(" + a + ", " + b + ")", "States.Array(States.Array(" + a + "), " + b + ")"], fn)
     return check(expr, doc_in(1), doc_ctx(1))
+
+
+# --------------------------------------------------------------------- additions after the seeded-change round
+@condition(timeout={"quick": 120, "thorough": 600}, bounds={"quick": {"N": 2}, "thorough": {"N": 3}}, functions=[_F + "Format"],
+           outside=["WHICH value a by-reference template with backslashes yields (only that the call returns or fails with IntrinsicFailure)"])
+def Format_by_reference_fails_cleanly(t: str, nargs: int) -> bool:
+    """
+    requires: len(t) <= @N@ and over(t, 'a{}' + BS) and 0 <= nargs < 3
+    ensures: _
+    """
+    # any exception other than IntrinsicFailure / path failures escapes run() and is reported by CrossHair
+    got = call("States.Format($.t" + pick(["", ", 'x'", ", 'x', 7"], nargs) + ")", {"t": t})
+    return got[0] in ("ok", "fail")
+
+
+@condition(timeout={"quick": 60, "thorough": 120}, functions=["evaluate_payload_template (absent / empty templates)"])
+def template_empty_or_absent(kind: int, x: int) -> bool:
+    """
+    requires: 0 <= kind < 4 and 0 <= x <= 1
+    ensures: _
+    """
+    inp = {"x": x, "y": {"z": 1}}
+    before = _json.loads(_json.dumps(inp))
+    tpl = pick([None, {}, {"n": {}}, {"n": []}], kind)
+    got = run(tpl, inp, {"c": 1})
+    if not unchanged(before, inp):
+        return False
+    if kind == 0:
+        return got == ("ok", inp)                 # no template: the input passes through
+    return got[0] == "ok" and ref.same(got[1], tpl) and got[1] is not inp     # an empty object selects {}, not the input
